@@ -181,7 +181,21 @@ func (w *world) enumCol(name string, e int) *schema.Column {
 	return schema.NewColumn(name).SetType(t)
 }
 
-func tname(n int) string { return fmt.Sprintf("t%02d", n) }
+// tname: the SQL name of base name n. 0..12: "t%02d". 13+3k+v (k = 0..28): the three spellings of one name --
+// v = 0 "u%02dA", v = 1 "u%02da" (equal up to letter case), v = 2 "u%02da " (trailing space). The numbering follows
+// the byte order of the strings (byKeys in sortMap sorts the names), so that the model, where a name is a
+// number, visits the names in the same order. To the planner these are simply different names.
+const twinBase = 13
+
+func twin(k, v int) int { return twinBase + 3*k + v }
+
+func tname(n int) string {
+	if n >= twinBase {
+		k, v := (n-twinBase)/3, (n-twinBase)%3
+		return fmt.Sprintf("u%02d%s", k, []string{"A", "a", "a "}[v])
+	}
+	return fmt.Sprintf("t%02d", n)
+}
 
 func (w *world) table(t tbl) *schema.Table {
 	if x, ok := w.tabs[t.id]; ok {
@@ -327,6 +341,21 @@ func tableTypes(t *schema.Table) []int {
 }
 
 func num(s string) int {
+	if strings.HasPrefix(s, "u") && len(s) >= 4 { // a spelling of a twin name
+		k, err := strconv.Atoi(s[1:3])
+		if err != nil {
+			return -1
+		}
+		switch s[3:] {
+		case "A":
+			return twin(k, 0)
+		case "a":
+			return twin(k, 1)
+		case "a ":
+			return twin(k, 2)
+		}
+		return -1
+	}
 	n, err := strconv.Atoi(strings.TrimLeft(s, "tsx"))
 	if err != nil {
 		return -1
